@@ -47,6 +47,14 @@ inductive Impl (K : Type) where
   | rcons (op rest : Impl K)                            -- ReductionOperator(op, *rest)
   | dnil
   | dcons (op rest : Impl K)                            -- DiagonalOperator(op, *rest)
+  | psnil (n m : Nat)                                   -- ProductSpaceOperator without entries
+  | pscons (ro co : Nat) (op rest : Impl K)             -- … plus the entry `op` at flat row offset `ro`, column offset `co`
+  -- complex spaces: `cn(n)` is the flat real space `[re_0 … re_{n-1}, im_0 … im_{n-1}]` ("C = R²")
+  | cmodsq (n : Nat)                                    -- ComplexModulusSquared(cn(n)) : cn(n) → rn(n)
+  | cmodsqd (n : Nat) (p : Vec K)                       -- its derivative at `p` (ComplexModulusSquaredDerivative)
+  | realpart (n : Nat)                                  -- RealPart(cn(n))
+  | imagpart (n : Nat)                                  -- ImagPart(cn(n))
+  | cembed (n : Nat) (a b : K)                          -- ComplexEmbedding(rn(n), scalar = a + b i)
 
 section
 variable {K : Type} [Add K] [Mul K] [OfNat K 0] [OfNat K 1]
@@ -78,6 +86,9 @@ def dom : Impl K → Nat
   | bnil n => n | bcons op _ => op.dom
   | rnil _ => 0 | rcons op rest => op.dom + rest.dom
   | dnil => 0 | dcons op rest => op.dom + rest.dom
+  | psnil n _ => n | pscons _ _ _ rest => rest.dom
+  | cmodsq n => n + n | cmodsqd n _ => n + n | realpart n => n + n | imagpart n => n + n
+  | cembed n _ _ => n
 
 /-- Dimension of the range; a field (`RealNumbers()`) counts as dimension 1. -/
 def ran : Impl K → Nat
@@ -89,6 +100,9 @@ def ran : Impl K → Nat
   | bnil _ => 0 | bcons op rest => op.ran + rest.ran
   | rnil m => m | rcons op _ => op.ran
   | dnil => 0 | dcons op rest => op.ran + rest.ran
+  | psnil _ m => m | pscons _ _ _ rest => rest.ran
+  | cmodsq n => n | cmodsqd n _ => n | realpart n => n | imagpart n => n
+  | cembed n _ _ => n + n
 
 /-- `isinstance(op.range, Field)` — the operator is a functional. -/
 def ranField : Impl K → Bool
@@ -125,6 +139,14 @@ def run : Impl K → Vec K → Vec K
   | dnil, _ => fun _ => 0
   | dcons op rest, x => fun k =>
       if k < op.ran then op.run x k else rest.run (fun j => x (op.dom + j)) (k - op.ran)
+  | psnil _ _, _ => fun _ => 0
+  | pscons ro co op rest, x => fun k =>
+      rest.run x k + (if ro ≤ k ∧ k < ro + op.ran then op.run (fun j => x (co + j)) (k - ro) else 0)
+  | cmodsq n, x => fun k => x k * x k + x (n + k) * x (n + k)
+  | cmodsqd n p, y => fun k => (p k * y k + p (n + k) * y (n + k)) * natK 2
+  | realpart _, x => x
+  | imagpart n, x => fun k => x (n + k)
+  | cembed n a b, x => fun k => if k < n then a * x k else b * x (k - n)
 
 end Impl
 end
@@ -154,6 +176,9 @@ def isLinear : Impl K → Bool
   | bnil _ => true | bcons op rest => op.isLinear && rest.isLinear
   | rnil _ => true | rcons op rest => op.isLinear && rest.isLinear
   | dnil => true | dcons op rest => op.isLinear && rest.isLinear
+  | psnil _ _ => true | pscons _ _ op rest => op.isLinear && rest.isLinear
+  | cmodsq _ => false | cmodsqd _ _ => true | realpart _ => true | imagpart _ => true
+  | cembed _ _ _ => true
 
 /-- A temporary, if given, must lie in the stated space. -/
 def tmpOk (t : Option Nat) (n : Nat) : Bool :=
@@ -183,6 +208,47 @@ def wf : Impl K → Bool
   | rcons op rest => op.wf && rest.wf && (op.ran == rest.ran) && !op.ranField
   | dnil => true
   | dcons op rest => op.wf && rest.wf && !op.ranField
+  | psnil _ _ => true
+  | pscons ro co op rest => op.wf && rest.wf && !op.ranField &&
+      decide (ro + op.ran ≤ rest.ran) && decide (co + op.dom ≤ rest.dom)
+  | cmodsq _ => true | cmodsqd _ _ => true | realpart _ => true | imagpart _ => true
+  | cembed _ _ _ => true
+
+/-- The domain is a complex space (flat `[re, im]` layout). -/
+def domC : Impl K → Bool
+  | cmodsq _ => true | cmodsqd _ _ => true | realpart _ => true | imagpart _ => true
+  | sum l _ _ _ => l.domC | vecsum op _ => op.domC | comp _ r _ => r.domC
+  | lscal op _ => op.domC | rscal op _ => op.domC | lvec op _ => op.domC | rvec op _ => op.domC
+  | pprod l _ => l.domC | flvec f _ _ => f.domC
+  | _ => false
+
+/-- The range is a complex space. -/
+def ranC : Impl K → Bool
+  | cembed _ _ _ => true
+  | sum l _ _ _ => l.ranC | vecsum op _ => op.ranC | comp l _ _ => l.ranC
+  | lscal op _ => op.ranC | rscal op _ => op.ranC | lvec op _ => op.ranC | rvec op _ => op.ranC
+  | pprod l _ => l.ranC
+  | _ => false
+
+/-- Faithfulness of the flat real reading of complex spaces: real and complex spaces are not
+mixed up, and nothing is multiplied point-wise by a complex vector or value (the model has real
+scalars and flat point-wise products only).  Not needed by the theorems (they hold for the flat
+semantics of every `wf` tree); required by the driver, so that only trees whose real-code
+counterpart means the same are compared. -/
+def cwf : Impl K → Bool
+  | sum l r _ _ => l.cwf && r.cwf && (l.ranC == r.ranC) && (l.domC == r.domC)
+  | vecsum op _ => op.cwf
+  | comp l r _ => l.cwf && r.cwf && (r.ranC == l.domC)
+  | lscal op _ => op.cwf | rscal op _ => op.cwf
+  | lvec op _ => op.cwf && !op.ranC
+  | rvec op _ => op.cwf && !op.domC
+  | pprod l r => l.cwf && r.cwf && !l.ranC && !r.ranC && (l.domC == r.domC)
+  | flvec f _ _ => f.cwf
+  | bcons op rest => op.cwf && rest.cwf && !op.ranC && !op.domC
+  | rcons op rest => op.cwf && rest.cwf && !op.ranC && !op.domC
+  | dcons op rest => op.cwf && rest.cwf && !op.ranC && !op.domC
+  | pscons _ _ op rest => op.cwf && rest.cwf && !op.ranC && !op.domC
+  | _ => true
 
 /-- `OperatorSum.__init__`. -/
 def mkSum (l r : Impl K) (tr td : Option Nat) : Option (Impl K) :=
@@ -281,6 +347,22 @@ def deriv : Impl K → Vec K → Option (Impl K)
       match op.deriv x, rest.deriv (fun j => x (op.dom + j)) with
       | some o', some r' => some (dcons o' r')
       | _, _ => none
+  -- `ProductSpaceOperator.derivative`: linear ⇒ self, else the same sparse matrix with
+  -- `op.derivative(x[col])` in every entry.  (In the cons encoding the short cut is also taken
+  -- for a linear tail; the code then returns the derivatives of the linear entries, which act
+  -- like the entries themselves — `C06.deriv_linear`.)
+  | psnil n m, _ => some (psnil n m)
+  | pscons ro co op rest, x =>
+      if op.isLinear && rest.isLinear then some (pscons ro co op rest)
+      else match op.deriv (fun j => x (co + j)), rest.deriv x with
+        | some o', some r' => some (pscons ro co o' r')
+        | _, _ => none
+  -- `ComplexModulusSquared.derivative`: `y ↦ 2 (Re x · Re y + Im x · Im y)`
+  | cmodsq n, x => some (cmodsqd n x)
+  | cmodsqd n p, _ => some (cmodsqd n p)
+  | realpart n, _ => some (realpart n)
+  | imagpart n, _ => some (imagpart n)
+  | cembed n a b, _ => some (cembed n a b)
 
 end Impl
 end
